@@ -1,4 +1,5 @@
 import kappadata.transforms as kdt
+from .norm.kd_image_net_norm import KDImageNetNorm
 
 
 class MAEFinetuneTransform(kdt.KDComposeTransform):
@@ -13,6 +14,6 @@ class MAEFinetuneTransform(kdt.KDComposeTransform):
                 interpolation="bicubic",
                 fill_color=(124, 116, 104),
             ),
-            kdt.KDImageNetNorm(),
+            KDImageNetNorm(),
             kdt.KDRandomErasing(p=0.25, mode="pixelwise", max_count=1),
         ])
